@@ -11,7 +11,10 @@ import time
 import traceback
 
 from . import build
+from .gen import ints as _ints
 from .proto import HarnessError, Runner, RunnerCrash, sanitizer_signature
+
+_ints.install()     # bounded st.integers draws are uniform everywhere (see engine/gen/ints.py:uniform)
 
 VERIF = build.VERIF
 DEFAULT_SEED = 20260926
